@@ -35,6 +35,8 @@ impl VM {
     fn arm_add(&mut self, gc: &mut GC) -> (r: Result<(), Error>)
         requires old(self).stack@.len() >= 2
         ensures
+            // static stack effect (table op_delta, opcodes.rs): what the code generator's height typing assumes of this opcode
+            r is Ok ==> final(self).stack@.len() == old(self).stack@.len() + op_delta(OpCode::Add),
             //@VACUITY
             binop_step(*old(self), *final(self), r, generic_sem(OpCode::Add)),
     {
@@ -45,6 +47,8 @@ impl VM {
     fn arm_subtract(&mut self, gc: &mut GC) -> (r: Result<(), Error>)
         requires old(self).stack@.len() >= 2
         ensures
+            // static stack effect (table op_delta, opcodes.rs): what the code generator's height typing assumes of this opcode
+            r is Ok ==> final(self).stack@.len() == old(self).stack@.len() + op_delta(OpCode::Subtract),
             //@VACUITY
             binop_step(*old(self), *final(self), r, generic_sem(OpCode::Subtract)),
     {
@@ -55,6 +59,8 @@ impl VM {
     fn arm_divide(&mut self, gc: &mut GC) -> (r: Result<(), Error>)
         requires old(self).stack@.len() >= 2
         ensures
+            // static stack effect (table op_delta, opcodes.rs): what the code generator's height typing assumes of this opcode
+            r is Ok ==> final(self).stack@.len() == old(self).stack@.len() + op_delta(OpCode::Divide),
             //@VACUITY
             binop_step(*old(self), *final(self), r, generic_sem(OpCode::Divide)),
     {
@@ -65,6 +71,8 @@ impl VM {
     fn arm_multiply(&mut self, gc: &mut GC) -> (r: Result<(), Error>)
         requires old(self).stack@.len() >= 2
         ensures
+            // static stack effect (table op_delta, opcodes.rs): what the code generator's height typing assumes of this opcode
+            r is Ok ==> final(self).stack@.len() == old(self).stack@.len() + op_delta(OpCode::Multiply),
             //@VACUITY
             binop_step(*old(self), *final(self), r, generic_sem(OpCode::Multiply)),
     {
@@ -75,6 +83,8 @@ impl VM {
     fn arm_gt(&mut self, gc: &mut GC) -> (r: Result<(), Error>)
         requires old(self).stack@.len() >= 2
         ensures
+            // static stack effect (table op_delta, opcodes.rs): what the code generator's height typing assumes of this opcode
+            r is Ok ==> final(self).stack@.len() == old(self).stack@.len() + op_delta(OpCode::Gt),
             //@VACUITY
             binop_step(*old(self), *final(self), r, generic_sem(OpCode::Gt)),
     {
@@ -85,6 +95,8 @@ impl VM {
     fn arm_gte(&mut self, gc: &mut GC) -> (r: Result<(), Error>)
         requires old(self).stack@.len() >= 2
         ensures
+            // static stack effect (table op_delta, opcodes.rs): what the code generator's height typing assumes of this opcode
+            r is Ok ==> final(self).stack@.len() == old(self).stack@.len() + op_delta(OpCode::Gte),
             //@VACUITY
             binop_step(*old(self), *final(self), r, generic_sem(OpCode::Gte)),
     {
@@ -95,6 +107,8 @@ impl VM {
     fn arm_lt(&mut self, gc: &mut GC) -> (r: Result<(), Error>)
         requires old(self).stack@.len() >= 2
         ensures
+            // static stack effect (table op_delta, opcodes.rs): what the code generator's height typing assumes of this opcode
+            r is Ok ==> final(self).stack@.len() == old(self).stack@.len() + op_delta(OpCode::Lt),
             //@VACUITY
             binop_step(*old(self), *final(self), r, generic_sem(OpCode::Lt)),
     {
@@ -105,6 +119,8 @@ impl VM {
     fn arm_lte(&mut self, gc: &mut GC) -> (r: Result<(), Error>)
         requires old(self).stack@.len() >= 2
         ensures
+            // static stack effect (table op_delta, opcodes.rs): what the code generator's height typing assumes of this opcode
+            r is Ok ==> final(self).stack@.len() == old(self).stack@.len() + op_delta(OpCode::Lte),
             //@VACUITY
             binop_step(*old(self), *final(self), r, generic_sem(OpCode::Lte)),
     {
@@ -115,6 +131,8 @@ impl VM {
     fn arm_eq(&mut self, gc: &mut GC) -> (r: Result<(), Error>)
         requires old(self).stack@.len() >= 2
         ensures
+            // static stack effect (table op_delta, opcodes.rs): what the code generator's height typing assumes of this opcode
+            r is Ok ==> final(self).stack@.len() == old(self).stack@.len() + op_delta(OpCode::Eq),
             //@VACUITY
             binop_step(*old(self), *final(self), r, generic_sem(OpCode::Eq)),
     {
@@ -125,6 +143,8 @@ impl VM {
     fn arm_neq(&mut self, gc: &mut GC) -> (r: Result<(), Error>)
         requires old(self).stack@.len() >= 2
         ensures
+            // static stack effect (table op_delta, opcodes.rs): what the code generator's height typing assumes of this opcode
+            r is Ok ==> final(self).stack@.len() == old(self).stack@.len() + op_delta(OpCode::Neq),
             //@VACUITY
             binop_step(*old(self), *final(self), r, generic_sem(OpCode::Neq)),
     {
@@ -135,6 +155,8 @@ impl VM {
     fn arm_modulo(&mut self, gc: &mut GC) -> (r: Result<(), Error>)
         requires old(self).stack@.len() >= 2
         ensures
+            // static stack effect (table op_delta, opcodes.rs): what the code generator's height typing assumes of this opcode
+            r is Ok ==> final(self).stack@.len() == old(self).stack@.len() + op_delta(OpCode::Modulo),
             //@VACUITY
             binop_step(*old(self), *final(self), r, generic_sem(OpCode::Modulo)),
     {
@@ -145,6 +167,8 @@ impl VM {
     fn arm_and(&mut self, gc: &mut GC) -> (r: Result<(), Error>)
         requires old(self).stack@.len() >= 2
         ensures
+            // static stack effect (table op_delta, opcodes.rs): what the code generator's height typing assumes of this opcode
+            r is Ok ==> final(self).stack@.len() == old(self).stack@.len() + op_delta(OpCode::And),
             //@VACUITY
             binop_step(*old(self), *final(self), r, generic_sem(OpCode::And)),
     {
@@ -155,6 +179,8 @@ impl VM {
     fn arm_or(&mut self, gc: &mut GC) -> (r: Result<(), Error>)
         requires old(self).stack@.len() >= 2
         ensures
+            // static stack effect (table op_delta, opcodes.rs): what the code generator's height typing assumes of this opcode
+            r is Ok ==> final(self).stack@.len() == old(self).stack@.len() + op_delta(OpCode::Or),
             //@VACUITY
             binop_step(*old(self), *final(self), r, generic_sem(OpCode::Or)),
     {
@@ -168,6 +194,8 @@ impl VM {
             (old(self).bp as int) + u16_at(old(self).instructions@, old(self).ip as int) < old(self).stack@.len(),
             u16_at(old(self).instructions@, old(self).ip as int + 2) < constants@.len(),
         ensures
+            // static stack effect (table op_delta, opcodes.rs): what the code generator's height typing assumes of this opcode
+            r is Ok ==> final(self).stack@.len() == old(self).stack@.len() + op_delta(OpCode::GtLocalConst),
             //@VACUITY
             fused_step(*old(self), *final(self), constants@, r, fused_sem(OpCode::GtLocalConst)),
     {
@@ -181,6 +209,8 @@ impl VM {
             (old(self).bp as int) + u16_at(old(self).instructions@, old(self).ip as int) < old(self).stack@.len(),
             u16_at(old(self).instructions@, old(self).ip as int + 2) < constants@.len(),
         ensures
+            // static stack effect (table op_delta, opcodes.rs): what the code generator's height typing assumes of this opcode
+            r is Ok ==> final(self).stack@.len() == old(self).stack@.len() + op_delta(OpCode::GteLocalConst),
             //@VACUITY
             fused_step(*old(self), *final(self), constants@, r, fused_sem(OpCode::GteLocalConst)),
     {
@@ -194,6 +224,8 @@ impl VM {
             (old(self).bp as int) + u16_at(old(self).instructions@, old(self).ip as int) < old(self).stack@.len(),
             u16_at(old(self).instructions@, old(self).ip as int + 2) < constants@.len(),
         ensures
+            // static stack effect (table op_delta, opcodes.rs): what the code generator's height typing assumes of this opcode
+            r is Ok ==> final(self).stack@.len() == old(self).stack@.len() + op_delta(OpCode::LtLocalConst),
             //@VACUITY
             fused_step(*old(self), *final(self), constants@, r, fused_sem(OpCode::LtLocalConst)),
     {
@@ -207,6 +239,8 @@ impl VM {
             (old(self).bp as int) + u16_at(old(self).instructions@, old(self).ip as int) < old(self).stack@.len(),
             u16_at(old(self).instructions@, old(self).ip as int + 2) < constants@.len(),
         ensures
+            // static stack effect (table op_delta, opcodes.rs): what the code generator's height typing assumes of this opcode
+            r is Ok ==> final(self).stack@.len() == old(self).stack@.len() + op_delta(OpCode::LteLocalConst),
             //@VACUITY
             fused_step(*old(self), *final(self), constants@, r, fused_sem(OpCode::LteLocalConst)),
     {
@@ -220,6 +254,8 @@ impl VM {
             (old(self).bp as int) + u16_at(old(self).instructions@, old(self).ip as int) < old(self).stack@.len(),
             u16_at(old(self).instructions@, old(self).ip as int + 2) < constants@.len(),
         ensures
+            // static stack effect (table op_delta, opcodes.rs): what the code generator's height typing assumes of this opcode
+            r is Ok ==> final(self).stack@.len() == old(self).stack@.len() + op_delta(OpCode::EqLocalConst),
             //@VACUITY
             fused_step(*old(self), *final(self), constants@, r, fused_sem(OpCode::EqLocalConst)),
     {
@@ -233,6 +269,8 @@ impl VM {
             (old(self).bp as int) + u16_at(old(self).instructions@, old(self).ip as int) < old(self).stack@.len(),
             u16_at(old(self).instructions@, old(self).ip as int + 2) < constants@.len(),
         ensures
+            // static stack effect (table op_delta, opcodes.rs): what the code generator's height typing assumes of this opcode
+            r is Ok ==> final(self).stack@.len() == old(self).stack@.len() + op_delta(OpCode::NeqLocalConst),
             //@VACUITY
             fused_step(*old(self), *final(self), constants@, r, fused_sem(OpCode::NeqLocalConst)),
     {
@@ -246,6 +284,8 @@ impl VM {
             (old(self).bp as int) + u16_at(old(self).instructions@, old(self).ip as int) < old(self).stack@.len(),
             u16_at(old(self).instructions@, old(self).ip as int + 2) < constants@.len(),
         ensures
+            // static stack effect (table op_delta, opcodes.rs): what the code generator's height typing assumes of this opcode
+            r is Ok ==> final(self).stack@.len() == old(self).stack@.len() + op_delta(OpCode::AddLocalConst),
             //@VACUITY
             fused_step(*old(self), *final(self), constants@, r, fused_sem(OpCode::AddLocalConst)),
     {
@@ -259,6 +299,8 @@ impl VM {
             (old(self).bp as int) + u16_at(old(self).instructions@, old(self).ip as int) < old(self).stack@.len(),
             u16_at(old(self).instructions@, old(self).ip as int + 2) < constants@.len(),
         ensures
+            // static stack effect (table op_delta, opcodes.rs): what the code generator's height typing assumes of this opcode
+            r is Ok ==> final(self).stack@.len() == old(self).stack@.len() + op_delta(OpCode::SubtractLocalConst),
             //@VACUITY
             fused_step(*old(self), *final(self), constants@, r, fused_sem(OpCode::SubtractLocalConst)),
     {
@@ -272,6 +314,8 @@ impl VM {
             (old(self).bp as int) + u16_at(old(self).instructions@, old(self).ip as int) < old(self).stack@.len(),
             u16_at(old(self).instructions@, old(self).ip as int + 2) < constants@.len(),
         ensures
+            // static stack effect (table op_delta, opcodes.rs): what the code generator's height typing assumes of this opcode
+            r is Ok ==> final(self).stack@.len() == old(self).stack@.len() + op_delta(OpCode::MultiplyLocalConst),
             //@VACUITY
             fused_step(*old(self), *final(self), constants@, r, fused_sem(OpCode::MultiplyLocalConst)),
     {
@@ -285,6 +329,8 @@ impl VM {
             (old(self).bp as int) + u16_at(old(self).instructions@, old(self).ip as int) < old(self).stack@.len(),
             u16_at(old(self).instructions@, old(self).ip as int + 2) < constants@.len(),
         ensures
+            // static stack effect (table op_delta, opcodes.rs): what the code generator's height typing assumes of this opcode
+            r is Ok ==> final(self).stack@.len() == old(self).stack@.len() + op_delta(OpCode::DivideLocalConst),
             //@VACUITY
             fused_step(*old(self), *final(self), constants@, r, fused_sem(OpCode::DivideLocalConst)),
     {
@@ -298,6 +344,8 @@ impl VM {
             (old(self).bp as int) + u16_at(old(self).instructions@, old(self).ip as int) < old(self).stack@.len(),
             u16_at(old(self).instructions@, old(self).ip as int + 2) < constants@.len(),
         ensures
+            // static stack effect (table op_delta, opcodes.rs): what the code generator's height typing assumes of this opcode
+            r is Ok ==> final(self).stack@.len() == old(self).stack@.len() + op_delta(OpCode::ModuloLocalConst),
             //@VACUITY
             fused_step(*old(self), *final(self), constants@, r, fused_sem(OpCode::ModuloLocalConst)),
     {
@@ -308,6 +356,8 @@ impl VM {
     fn arm_const(&mut self, constants: &Vec<Object>) -> (r: Result<(), Error>)
         requires old(self).ip + 2 <= old(self).instructions@.len(), u16_at(old(self).instructions@, old(self).ip as int) < constants@.len()
         ensures
+            // static stack effect (table op_delta, opcodes.rs): what the code generator's height typing assumes of this opcode
+            r is Ok ==> final(self).stack@.len() == old(self).stack@.len() + op_delta(OpCode::Const),
             //@VACUITY
             r is Ok, final(self).stack@ == old(self).stack@.push(constants@[u16_at(old(self).instructions@, old(self).ip as int)]),
             final(self).ip == old(self).ip + 2, same_but_ip_stack(*old(self), *final(self)),
@@ -321,6 +371,8 @@ impl VM {
     fn arm_setglobal(&mut self) -> (r: Result<(), Error>)
         requires old(self).ip + 2 <= old(self).instructions@.len(), old(self).stack@.len() >= 1
         ensures
+            // static stack effect (table op_delta, opcodes.rs): what the code generator's height typing assumes of this opcode
+            r is Ok ==> final(self).stack@.len() == old(self).stack@.len() + op_delta(OpCode::SetGlobal),
             //@VACUITY
             r is Ok,
             ({
@@ -343,6 +395,8 @@ impl VM {
     fn arm_getglobal(&mut self) -> (r: Result<(), Error>)
         requires old(self).ip + 2 <= old(self).instructions@.len()
         ensures
+            // static stack effect (table op_delta, opcodes.rs): what the code generator's height typing assumes of this opcode
+            r is Ok ==> final(self).stack@.len() == old(self).stack@.len() + op_delta(OpCode::GetGlobal),
             //@VACUITY
             ({
                 let idx = u16_at(old(self).instructions@, old(self).ip as int);
@@ -359,6 +413,8 @@ impl VM {
         requires old(self).ip + 2 <= old(self).instructions@.len(), old(self).stack@.len() >= 1,
                  (old(self).bp as int) + u16_at(old(self).instructions@, old(self).ip as int) < old(self).stack@.len() - 1
         ensures
+            // static stack effect (table op_delta, opcodes.rs): what the code generator's height typing assumes of this opcode
+            r is Ok ==> final(self).stack@.len() == old(self).stack@.len() + op_delta(OpCode::SetLocal),
             //@VACUITY
             r is Ok,
             final(self).stack@ == old(self).stack@.drop_last().update(old(self).bp as int + u16_at(old(self).instructions@, old(self).ip as int), old(self).stack@.last()),
@@ -372,6 +428,8 @@ impl VM {
         requires old(self).ip + 2 <= old(self).instructions@.len(),
                  (old(self).bp as int) + u16_at(old(self).instructions@, old(self).ip as int) < old(self).stack@.len()
         ensures
+            // static stack effect (table op_delta, opcodes.rs): what the code generator's height typing assumes of this opcode
+            r is Ok ==> final(self).stack@.len() == old(self).stack@.len() + op_delta(OpCode::GetLocal),
             //@VACUITY
             r is Ok,
             final(self).stack@ == old(self).stack@.push(old(self).stack@[old(self).bp as int + u16_at(old(self).instructions@, old(self).ip as int)]),
@@ -385,6 +443,8 @@ impl VM {
     fn arm_jump(&mut self) -> (r: Result<(), Error>)
         requires old(self).ip + 2 <= old(self).instructions@.len()
         ensures
+            // static stack effect (table op_delta, opcodes.rs): what the code generator's height typing assumes of this opcode
+            r is Ok ==> final(self).stack@.len() == old(self).stack@.len() + op_delta(OpCode::Jump),
             //@VACUITY
             r is Ok, final(self).ip == u16_at(old(self).instructions@, old(self).ip as int), same_but_ip(*old(self), *final(self)),
     {
@@ -397,6 +457,8 @@ impl VM {
     fn arm_jumpiffalse(&mut self) -> (r: Result<(), Error>)
         requires old(self).ip + 2 <= old(self).instructions@.len(), old(self).stack@.len() >= 1
         ensures
+            // static stack effect (table op_delta, opcodes.rs): what the code generator's height typing assumes of this opcode
+            r is Ok ==> final(self).stack@.len() == old(self).stack@.len() + op_delta(OpCode::JumpIfFalse),
             //@VACUITY
             ({
                 let c = old(self).stack@.last();
@@ -416,6 +478,8 @@ impl VM {
     fn arm_pop(&mut self, final_result: &mut Object) -> (r: Result<(), Error>)
         requires old(self).stack@.len() >= 1
         ensures
+            // static stack effect (table op_delta, opcodes.rs): what the code generator's height typing assumes of this opcode
+            r is Ok ==> final(self).stack@.len() == old(self).stack@.len() + op_delta(OpCode::Pop),
             //@VACUITY
             r is Ok, *final(final_result) == old(self).stack@.last(), final(self).stack@ == old(self).stack@.drop_last(), same_but_stack(*old(self), *final(self)),
     {
@@ -425,6 +489,8 @@ impl VM {
 
     fn arm_null(&mut self) -> (r: Result<(), Error>)
         ensures
+            // static stack effect (table op_delta, opcodes.rs): what the code generator's height typing assumes of this opcode
+            r is Ok ==> final(self).stack@.len() == old(self).stack@.len() + op_delta(OpCode::Null),
             //@VACUITY
             r is Ok, final(self).stack@ == old(self).stack@.push(spec_null()), same_but_stack(*old(self), *final(self)),
     {
@@ -433,6 +499,8 @@ impl VM {
     }
     fn arm_true(&mut self) -> (r: Result<(), Error>)
         ensures
+            // static stack effect (table op_delta, opcodes.rs): what the code generator's height typing assumes of this opcode
+            r is Ok ==> final(self).stack@.len() == old(self).stack@.len() + op_delta(OpCode::True),
             //@VACUITY
             r is Ok, final(self).stack@ == old(self).stack@.push(spec_mk_bool(true)), same_but_stack(*old(self), *final(self)),
     {
@@ -441,6 +509,8 @@ impl VM {
     }
     fn arm_false(&mut self) -> (r: Result<(), Error>)
         ensures
+            // static stack effect (table op_delta, opcodes.rs): what the code generator's height typing assumes of this opcode
+            r is Ok ==> final(self).stack@.len() == old(self).stack@.len() + op_delta(OpCode::False),
             //@VACUITY
             r is Ok, final(self).stack@ == old(self).stack@.push(spec_mk_bool(false)), same_but_stack(*old(self), *final(self)),
     {
@@ -452,6 +522,8 @@ impl VM {
     fn arm_not(&mut self) -> (r: Result<(), Error>)
         requires old(self).stack@.len() >= 1
         ensures
+            // static stack effect (table op_delta, opcodes.rs): what the code generator's height typing assumes of this opcode
+            r is Ok ==> final(self).stack@.len() == old(self).stack@.len() + op_delta(OpCode::Not),
             //@VACUITY
             ({
                 let x = old(self).stack@.last();
@@ -469,6 +541,8 @@ impl VM {
     fn arm_negate(&mut self, gc: &mut GC) -> (r: Result<(), Error>)
         requires old(self).stack@.len() >= 1
         ensures
+            // static stack effect (table op_delta, opcodes.rs): what the code generator's height typing assumes of this opcode
+            r is Ok ==> final(self).stack@.len() == old(self).stack@.len() + op_delta(OpCode::Negate),
             //@VACUITY
             ({
                 let x = old(self).stack@.last();
@@ -490,6 +564,8 @@ impl VM {
                  old(self).instructions@[old(self).ip as int] <= 6,
                  old(self).stack@.len() >= old(self).instructions@[old(self).ip as int + 1]
         ensures
+            // static stack effect (table op_delta, opcodes.rs): what the code generator's height typing assumes of this opcode
+            r is Ok ==> final(self).stack@.len() == old(self).stack@.len() + op_delta(OpCode::CallBuiltin) - old(self).instructions@[old(self).ip as int + 1],
             //@VACUITY
             ({
                 let b = old(self).instructions@[old(self).ip as int];
@@ -511,6 +587,8 @@ impl VM {
         requires old(self).ip + 2 <= old(self).instructions@.len(),
                  old(self).stack@.len() >= u16_at(old(self).instructions@, old(self).ip as int)
         ensures
+            // static stack effect (table op_delta, opcodes.rs): what the code generator's height typing assumes of this opcode
+            r is Ok ==> final(self).stack@.len() == old(self).stack@.len() + op_delta(OpCode::Array) - u16_at(old(self).instructions@, old(self).ip as int),
             //@VACUITY
             r is Ok,
             ({
@@ -532,6 +610,8 @@ impl VM {
     fn arm_indexget(&mut self, gc: &mut GC) -> (r: Result<(), Error>)
         requires old(self).stack@.len() >= 2
         ensures
+            // static stack effect (table op_delta, opcodes.rs): what the code generator's height typing assumes of this opcode
+            r is Ok ==> final(self).stack@.len() == old(self).stack@.len() + op_delta(OpCode::IndexGet),
             //@VACUITY
             ({
                 let index = old(self).stack@.last();
@@ -550,6 +630,8 @@ impl VM {
     fn arm_indexset(&mut self) -> (r: Result<(), Error>)
         requires old(self).stack@.len() >= 3
         ensures
+            // static stack effect (table op_delta, opcodes.rs): what the code generator's height typing assumes of this opcode
+            r is Ok ==> final(self).stack@.len() == old(self).stack@.len() + op_delta(OpCode::IndexSet),
             //@VACUITY
             ({
                 let value = old(self).stack@.last();
@@ -569,6 +651,8 @@ impl VM {
     /// stop managing it (so that dropping the collector does not free the result)
     fn arm_halt(&mut self, gc: &mut GC, final_result: Object) -> (r: Result<Object, Error>)
         ensures
+            // static stack effect (table op_delta, opcodes.rs): what the code generator's height typing assumes of this opcode
+            r is Ok ==> final(self).stack@.len() == old(self).stack@.len() + op_delta(OpCode::Halt),
             //@VACUITY
             r is Ok, r->Ok_0 == final_result, !gc_managed(*final(gc)).contains(final_result), *final(self) == *old(self),
     {
